@@ -247,6 +247,20 @@ def exec (s : St) (ws : List String) : Option (St × String) :=
       let g2 := registerChans (registerChans r.1.g .dataIn (ins.map Prod.snd)) .dataOut (outs.map Prod.snd)
       some ({ s with w := { r.1 with g := g2 }, names }, showRes r.2)
     | _, _ => none
+  | "replace" :: label :: "in" :: rest =>
+    -- `wf.replace_child(label, new)`: the new node's channels are declared here
+    let (ins, outs) := splitAt rest "out"
+    if !rest.contains "out" then none else
+    match ins.mapM parseChan, outs.mapM parseChan with
+    | some ins, some outs =>
+      let r := step s.w (.replace label { label := "?", ins, outs })
+      let mine := (ins ++ outs).map fun lc => (lc.2, s!"{label}.{lc.1}")
+      let names := if r.2 = .ok then (s.names.filter fun e => (mine.lookup e.1).isNone) ++ mine
+        else s.names ++ mine.filter fun e => (s.names.lookup e.1).isNone
+      -- a refused replacement still exists (parentless)
+      let g2 := registerChans (registerChans r.1.g .dataIn (ins.map Prod.snd)) .dataOut (outs.map Prod.snd)
+      some ({ s with w := { r.1 with g := g2 }, names }, showRes r.2)
+    | _, _ => none
   | "ext" :: label :: "in" :: rest =>
     -- a node that is nobody's child: its channels exist (for connections and values) only
     let (ins, outs) := splitAt rest "out"
